@@ -762,7 +762,7 @@ def suite_route(ctx):
         ss = ps[2].get('seasurface')
         if ss is not None:
             kw['seasurface'] = ss
-        with warnings.catch_warnings(record=True):
+        with warnings.catch_warnings(record=True) as wl_mesh:
             warnings.simplefilter('always')
             try:
                 mesh = emg3d.construct_mesh(**kw)
@@ -773,6 +773,8 @@ def suite_route(ctx):
                 got, gk = None, 'none'
             except ValueError as e:
                 got, gk = None, 'err:'+str(e)[:60]
+        with warnings.catch_warnings(record=True) as wl_dir:
+            warnings.simplefilter('always')
             exp, ek = [], 'ok'
             for i in range(3):
                 k1 = {'frequency': f, 'mapping': mapping,
@@ -799,6 +801,23 @@ def suite_route(ctx):
                 if r[0] is None:
                     ek = 'none'
                 exp.append(r)
+        # the sea surface is a node of the returned mesh, or a warning says
+        # it is not - also through construct_mesh
+        def ss_warned(wl):
+            return any(issubclass(w_.category, UserWarning) and
+                       'easurface' in str(w_.message) for w_ in wl)
+        if gk == 'ok' and ss is not None:
+            nodes_z = got[2][0] + np.r_[0, np.cumsum(got[2][1])]
+            is_node = bool(np.any(np.abs(nodes_z - ss) <=
+                                  1e-9*max(1.0, abs(ss))))
+            if not is_node and not ss_warned(wl_mesh):
+                bad.append(('seasurface', repr(kw)[:300]))
+                ctx.violation(
+                    'seasurface-not-node-no-warning',
+                    f'construct_mesh: sea surface {ss} is not a node of the '
+                    f'mesh and no warning was raised (origin_and_widths for '
+                    f'the z-direction warns: {ss_warned(wl_dir)})',
+                    {'kwargs': repr(kw)})
         if gk != ek:
             bad.append((gk, ek, repr(kw)[:400]))
             ctx.violation('construct-mesh-routing',
@@ -816,6 +835,46 @@ def suite_route(ctx):
                         f'per-direction parameters',
                         {'kwargs': repr(kw), 'direction': i})
         ctx.count(key=('route', t, gk, npr, fmt, tuple(use_vec)))
+    # sea surfaces that cannot become a node: the warning must come through
+    # construct_mesh (fixed configurations, jittered)
+    for t in range(5):
+        j = float(rng.uniform(-2, 2))
+        base = dict(frequency=1.0, properties=[0.3, 1.0, 1e8])
+        cfgs = [
+            dict(center=(0, 0, -10.+j), seasurface=0.0, min_width_limits=50.,
+                 domain=([-500, 500], [-500, 500], [-1000, -5])),
+            dict(center=(0, 0, -10.+j), seasurface=0.0, min_width_limits=100.,
+                 center_on_edge=True,
+                 domain=([-500, 500], [-500, 500], [-1000, -5])),
+            dict(center=(0, 0, -300.), seasurface=-30.0+j,
+                 min_width_limits=100., stretching=[1.0, 1.5],
+                 domain=([-500, 500], [-500, 500], [-1000, -100])),
+            dict(center=(0, 0, -300.), seasurface=-30.0+j,
+                 domain=([-500, 500], [-500, 500], None),
+                 vector=(None, None, np.array([-1000., -700., -400., -100.]))),
+            dict(center=(0, 0, -300.), seasurface=-95.0+j,
+                 domain=([-500, 500], [-500, 500], None),
+                 vector=(None, None, np.array([-1000., -700., -400., -100.]))),
+        ]
+        kw = {**base, **cfgs[t]}
+        with warnings.catch_warnings(record=True) as wl_mesh:
+            warnings.simplefilter('always')
+            try:
+                mesh = emg3d.construct_mesh(**kw)
+            except Exception:      # noqa  (fails loudly: fine)
+                continue
+        ss = kw['seasurface']
+        is_node = bool(np.any(np.abs(mesh.nodes_z - ss) <= 1e-9))
+        warned = any(issubclass(w_.category, UserWarning) and
+                     'easurface' in str(w_.message) for w_ in wl_mesh)
+        if not is_node and not warned:
+            bad.append(('seasurface', t))
+            ctx.violation(
+                'seasurface-not-node-no-warning',
+                f'construct_mesh: sea surface {ss} is not a node of the mesh '
+                f'(nearest {float(mesh.nodes_z[np.argmin(np.abs(mesh.nodes_z-ss))])}) '
+                f'and no warning was raised', {'kwargs': repr(kw)})
+        ctx.count(key=('route-seasurface', t, is_node, warned))
     ctx.oblige('correspondence: construct_mesh == per-direction '
                'origin_and_widths with parameters split as documented '
                '(properties of length 1,2,3,4,7; tuple/dict formats)',
